@@ -451,6 +451,9 @@ func c12Peer(c *vf.Case) {
 	if !ok || !wild {
 		// unicast traffic only: datagram fidelity + SetAsyncReadBuffer through the peer's own paths
 		c12PeerUnicast(c, ioc, p)
+		if !c.Failed() {
+			c12TwoPeersOneBatch(c, ioc)
+		}
 		c.NonTrivial(fmt.Sprintf("peer-unicast/%s", strings.Split(form, ":")[0]))
 		if !ok {
 			c.Count("membership_skipped_no_multicast_interface", 1)
@@ -680,6 +683,114 @@ func c12AsyncReadBuffer(c *vf.Case, ioc *sonic.IO, p *multicast.UDPPeer, snd int
 		}
 	}
 	c.Count("buffer_switches", 1)
+}
+
+// c12TwoPeersOneBatch: two peers on one IO, each with an asynchronous read parked; one datagram for each arrives
+// before the loop runs, so both are in one poll batch. The callback of whichever is dispatched first drains the
+// OTHER peer with a blocking Read. The other peer's readiness was already harvested: its handler then finds the
+// socket empty, and its parked read must simply stay parked (no completion without a datagram) and complete, once,
+// with the next datagram sent to it.
+func c12TwoPeersOneBatch(c *vf.Case, ioc *sonic.IO) {
+	mk := func() (*multicast.UDPPeer, int) {
+		p, err := multicast.NewUDPPeer(ioc, "udp", "127.0.0.1:0")
+		if err != nil {
+			c.Failf("harness-setup", "NewUDPPeer: %v", err)
+			return nil, 0
+		}
+		return p, p.LocalAddr().Port
+	}
+	a, aport := mk()
+	if a == nil {
+		return
+	}
+	defer a.Close()
+	b, bport := mk()
+	if b == nil {
+		return
+	}
+	defer b.Close()
+	snd, _, err := rawpeer.UDP4([4]byte{127, 0, 0, 1})
+	if err != nil {
+		c.Failf("harness-setup", "%v", err)
+		return
+	}
+	defer syscall.Close(snd)
+	peers := []*multicast.UDPPeer{a, b}
+	names := []string{"A", "B"}
+	calls := [2]int{}
+	var got [2][]byte
+	var gerr [2]error
+	stolen := [2][]byte{}
+	first := -1
+	bufs := [2][]byte{make([]byte, 64), make([]byte, 64)}
+	for i := range peers {
+		i := i
+		peers[i].AsyncRead(bufs[i], func(err error, n int, _ netip.AddrPort) {
+			calls[i]++
+			gerr[i] = err
+			if n > 0 && n <= len(bufs[i]) {
+				got[i] = append([]byte(nil), bufs[i][:n]...)
+			}
+			if first < 0 {
+				first = i
+				o := 1 - i
+				tmp := make([]byte, 64)
+				if n2, _, rerr := peers[o].Read(tmp); rerr == nil && n2 > 0 {
+					stolen[o] = append([]byte(nil), tmp[:n2]...)
+				}
+			}
+		})
+	}
+	if calls != [2]int{} {
+		c.Failf("harness-setup", "reads completed before any datagram was sent")
+		return
+	}
+	send := func(port int, payload string) {
+		_ = syscall.Sendto(snd, []byte(payload), 0, &syscall.SockaddrInet4{Addr: [4]byte{127, 0, 0, 1}, Port: port})
+	}
+	send(aport, "first-for-A")
+	send(bport, "first-for-B")
+	for it := 0; it < 200 && first < 0; it++ {
+		_ = ioc.RunOneFor(time.Millisecond)
+	}
+	if first < 0 {
+		c.Failf("datagram-never-read", "two peers with parked reads, one datagram each: neither read completed")
+		return
+	}
+	for it := 0; it < 20; it++ {
+		_, _ = ioc.PollOne()
+	}
+	o := 1 - first
+	c.Logf("two peers in one batch: %s dispatched first and drained %s with a blocking Read (%d bytes taken)", names[first], names[o], len(stolen[o]))
+	if string(got[first]) != "first-for-"+names[first] || gerr[first] != nil || calls[first] != 1 {
+		c.Failf("datagram-differs/two-peers", "peer %s: calls=%d err=%v payload=%q", names[first], calls[first], gerr[first], got[first])
+		return
+	}
+	if len(stolen[o]) > 0 {
+		// the other peer's datagram was taken by the blocking Read: its parked read has nothing to complete with
+		c.Count("parked_reads_whose_datagram_was_taken_by_a_blocking_read", 1)
+		if calls[o] != 0 {
+			c.Failf("read-completed-without-a-datagram", "peer %s: its datagram was consumed by a blocking Read inside another handler of the same batch, yet its parked AsyncRead completed (%d times, err=%v, %d bytes)", names[o], calls[o], gerr[o], len(got[o]))
+			return
+		}
+		port := []int{aport, bport}[o]
+		send(port, "second-for-"+names[o])
+		for it := 0; it < 400 && calls[o] == 0; it++ {
+			_ = ioc.RunOneFor(time.Millisecond)
+		}
+		if calls[o] != 1 || gerr[o] != nil || string(got[o]) != "second-for-"+names[o] {
+			c.Failf("datagram-completes-no-read", "peer %s: the datagram sent after its readiness was consumed elsewhere completed its parked read %d times (err=%v payload=%q)", names[o], calls[o], gerr[o], got[o])
+		}
+	} else {
+		// the other datagram had not been delivered to its socket yet when the first handler ran: ordinary case
+		for it := 0; it < 2000 && calls[o] == 0; it++ {
+			_ = ioc.RunOneFor(time.Millisecond)
+		}
+	}
+	if len(stolen[o]) == 0 && (calls[o] != 1 || string(got[o]) != "first-for-"+names[o]) {
+		c.Failf("datagram-differs/two-peers", "peer %s: calls=%d err=%v payload=%q", names[o], calls[o], gerr[o], got[o])
+	}
+	c.Count("two_peer_batches", 1)
 }
 
 // c12PeerUnicast: datagram fidelity through the peer's Read/AsyncRead/Write/AsyncWrite with unicast traffic.
